@@ -178,6 +178,16 @@ def kani_env():
     return env
 
 
+def mem_available_gb():
+    try:
+        for line in open("/proc/meminfo"):
+            if line.startswith("MemAvailable:"):
+                return int(line.split()[1]) / (1 << 20)
+    except OSError:
+        pass
+    return 1e9
+
+
 def _limit(mem_gb):
     def f():
         os.setsid()
@@ -446,6 +456,12 @@ def _check(prop, tier, seed, cells, scratch, t0, props_meta, extra=None):
             while mem_used[0] + w > TOTAL_MEM_GB and mem_used[0] > 0:
                 mem_lock.wait()
             mem_used[0] += w
+        # the machine has no swap: do not start a query while less than its booked share (+ margin) is actually
+        # available (other checks or builds may be running); give up waiting after 20 minutes
+        waited = 0
+        while mem_available_gb() < w + 8 and waited < 1200:
+            time.sleep(10)
+            waited += 10
         try:
             r = run_cell(scratch, c)
         finally:
